@@ -2,7 +2,9 @@ package c13
 
 import (
 	"testing"
+	"time"
 
+	"github.com/nats-io/nats.go"
 	"github.com/simpleiot/simpleiot/client"
 	"github.com/simpleiot/simpleiot/data"
 )
@@ -20,5 +22,53 @@ func TestRegressTextOperators(t *testing.T) {
 		if a != tc.active {
 			t.Fatalf("reference: %q %s %q = %v", tc.text, tc.op, tc.want, a)
 		}
+	}
+}
+
+// end to end: a rule with one text condition follows the point text
+func TestRegressTextConditionEndToEnd(t *testing.T) {
+	ns := server(t)
+	defer func() { ns.Shutdown(); ns.WaitForShutdown() }()
+	ncRule, err := nats.Connect("", nats.InProcessServer(ns))
+	if err != nil {
+		t.Fatal(err)
+	}
+	defer ncRule.Close()
+	ncH, err := nats.Connect("", nats.InProcessServer(ns))
+	if err != nil {
+		t.Fatal(err)
+	}
+	defer ncH.Close()
+	sub, _ := ncH.SubscribeSync("p.*")
+	ncH.Flush()
+	cfg := client.Rule{ID: "rule1", Parent: "par1", Conditions: []client.Condition{{ID: "c0", Parent: "rule1", ConditionType: data.PointValuePointValue,
+		ValueType: data.PointValueText, Operator: "contains", ValueText: "alarm"}}}
+	before := ns.NumSubscriptions()
+	rc := client.NewRuleClient(ncRule, cfg)
+	done := make(chan error, 1)
+	go func() { done <- rc.Run() }()
+	defer func() { rc.Stop(nil); <-done }()
+	for i := 0; i < 5000 && ns.NumSubscriptions() <= before; i++ {
+		time.Sleep(time.Millisecond)
+	}
+	b, _ := (&data.Points{{Type: "state", Text: "fire alarm", Time: time.Unix(1, 0)}}).ToPb()
+	ncH.Publish("up.par1.s1", b)
+	ncH.Flush()
+	got := map[string]float64{}
+	deadline := time.Now().Add(10 * time.Second)
+	for len(got) < 2 && time.Now().Before(deadline) {
+		m, err := sub.NextMsg(100 * time.Millisecond)
+		if err != nil {
+			continue
+		}
+		ps, _ := data.PbDecodePoints(m.Data)
+		for _, p := range ps {
+			if p.Type == data.PointTypeActive {
+				got[m.Subject] = p.Value
+			}
+		}
+	}
+	if got["p.c0"] != 1 || got["p.rule1"] != 1 {
+		t.Fatalf("text condition 'contains alarm' on text %q: writes %v, expected condition and rule active", "fire alarm", got)
 	}
 }
